@@ -37,6 +37,12 @@ type parser struct {
 	module *ast.Module
 	// module of the toplevel generic instantiation currently being parsed or nil
 	genericModule *ast.Module
+	// how many generic instantiations are currently nested
+	// a generic function that calls itself with a bigger type on every level would otherwise be instantiated without end
+	genericInstantiationDepth int
+	// set when the nesting got too deep, shared by all parsers of the nested instantiations
+	// so that they fail fast instead of trying again on every level
+	genericInstantiationAborted *bool
 	// modules that were passed as environment, might not all be used
 	predefinedModules map[string]*ast.Module
 	// all found aliases (+ inbuild aliases)
